@@ -63,6 +63,10 @@ func (r *renderer) Show(env *env, v any, context Context) error {
 		r.inURL = inURL
 	}
 
+	if isNilWithValueMethods(v) {
+		v = nil
+	}
+
 	if inURL {
 		return r.showInURL(env, v, ctx)
 	}
@@ -103,6 +107,31 @@ func (r *renderer) Show(env *env, v any, context Context) error {
 	}
 
 	return err
+}
+
+// shownMethods are the names of the methods that can be called on a shown
+// value.
+var shownMethods = []string{"String", "Error", "HTML", "CSS", "JS", "JSON", "Markdown"}
+
+// isNilWithValueMethods reports whether v is a nil pointer and one of the
+// methods that can be called to show it is declared on the pointed type.
+// Calling such a method panics, as it has a value receiver, so the value is
+// shown as nil, as a nil pointer without these methods.
+func isNilWithValueMethods(v any) bool {
+	rv := reflect.ValueOf(v)
+	if rv.Kind() != reflect.Pointer || !rv.IsNil() {
+		return false
+	}
+	t := rv.Type().Elem()
+	if t.NumMethod() == 0 {
+		return false
+	}
+	for _, name := range shownMethods {
+		if _, ok := t.MethodByName(name); ok {
+			return true
+		}
+	}
+	return false
 }
 
 // Out returns the out writer.
